@@ -39,7 +39,7 @@ def main(tier):
     ck.model(r["distinct"], r["generated"])
     hs = [h for h in hs if h[0]["call"] == "mat" and h[-1]["call"] == "destroy" and sum(1 for c in h if c["call"] == "mat") == 1]
     ck.notes["histories_enumerated_ending_with_destroy"] = len(hs)
-    sample = rng.sample(hs, min(len(hs), 60 if quick else 800))
+    sample = apicheck.covering_sample(hs, 72 if quick else 800, rng)
     # hand the doubled histories to the generic runner through a tiny shim
     import tlc, json
     os.makedirs(wd, exist_ok=True)
@@ -47,8 +47,7 @@ def main(tier):
     for p in ("d", "s", "z", "c"):
         api.driver(p)
     items = []
-    for i, h in enumerate(sample):
-        prec = ("d", "s", "z", "c")[i % 4]
+    for i, (h, prec) in enumerate(sample):
         hh = [dict(c, trans="T") if (prec in "cz" and c.get("trans") == "C") else c for c in h]
         seed_rng = random.Random(rng.randrange(10 ** 9))
         txt1 = api.script_of(hh, seed_rng, nmax=20, threads=(1, 2, 4))
